@@ -127,7 +127,13 @@ func solveAll(units []*UnitResult, dir string, timeoutSecs, workers int, crossCh
 				os.WriteFile(file, []byte(src), 0o644)
 				j.o.File = file
 				fp := strings.Contains(src, "FloatingPoint") || strings.Contains(src, "fp.")
-				r := solveFile(file, timeoutSecs, fp)
+				var r solverRes
+				if j.o.MustSat {
+					// vacuity covers: a quick satisfiability probe; "unknown" is inconclusive, only unsat is a finding
+					r = runSolver(context.Background(), "z3-new", file, 3)
+				} else {
+					r = solveFile(file, timeoutSecs, fp)
+				}
 				j.o.Status, j.o.Solver, j.o.Secs = r.status, r.solver, r.secs
 				if j.o.Output == "" || r.status != "unsat" {
 					j.o.Output = r.out
